@@ -354,6 +354,16 @@ func (w *World) AxiomsFor(pkg *types.Package) []*Axiom {
 	sort.Strings(names)
 	for _, n := range names {
 		cf := w.Files[n]
+		// a file whose imported packages are not part of this run cannot have its axioms evaluated (nor are they needed)
+		missing := false
+		for _, path := range cf.Imports {
+			if w.AllTypes[path] == nil {
+				missing = true
+			}
+		}
+		if missing {
+			continue
+		}
 		out = append(out, cf.Axioms...)
 	}
 	return out
